@@ -1,0 +1,16 @@
+//go:build verif
+
+package fastsync
+
+import "github.com/icon-project/goloop/common"
+
+// SimMutexesOf returns the addresses of the client and server mutexes of a
+// fast-sync manager so that the deterministic simulator (build tag "verif")
+// can schedule their acquisition order. Nothing here changes behaviour.
+func SimMutexesOf(m Manager) []*common.Mutex {
+	mm, ok := m.(*manager)
+	if !ok || mm == nil {
+		return nil
+	}
+	return []*common.Mutex{&mm.client.Mutex, &mm.server.Mutex}
+}
